@@ -156,7 +156,9 @@ theorem gapPairs_cov : ∀ (L : List Blk), ascSeparated L = true → ∀ p,
   | [a], _, p => by
     simp only [gapPairs, minStartOf, maxEndOf, coversBlocks, List.any_nil, List.any_cons, Bool.or_false,
       Nat.max_zero]
-    cases decide (a.1 ≤ p) <;> cases decide (p < a.2) <;> rfl
+    simp
+    intro h1 h2
+    exact ⟨of_decide_eq_true h1, h2⟩
   | a :: b :: rest, h, p => by
     have h' := h
     simp only [ascSeparated, Bool.and_eq_true, decide_eq_true_eq] at h'
@@ -191,10 +193,8 @@ theorem gapPairs_asc : ∀ (L : List Blk), ascSeparated L = true → ascSeparate
   | a :: b :: c :: r, h => by
     have h' := h
     simp only [ascSeparated, Bool.and_eq_true, decide_eq_true_eq] at h'
-    have ih := gapPairs_asc (b :: c :: r) h'.2
-    have h'' := h'.2
-    simp only [ascSeparated, Bool.and_eq_true, decide_eq_true_eq] at h''
-    have hc := (asc_cons h''.2).1
+    have ih := gapPairs_asc (b :: c :: r) (by simpa [ascSeparated] using h'.2)
+    have hc := (asc_cons h'.2.2).1
     rw [show gapPairs (a :: b :: c :: r) =
       (min a.2 b.2, max a.1 b.1) :: (min b.2 c.2, max b.1 c.1) :: gapPairs (c :: r) from rfl]
     rw [show gapPairs (b :: c :: r) = (min b.2 c.2, max b.1 c.1) :: gapPairs (c :: r) from rfl] at ih
